@@ -414,6 +414,9 @@ func extraCommand(name string, args []string) bool {
 	case "c05":
 		cmdC05(args)
 		return true
+	case "c05s":
+		cmdC05Stress(args)
+		return true
 	case "c13":
 		cmdC13(args)
 		return true
